@@ -5,6 +5,7 @@ Static lockset / protocol rules on semantiva/execution/transport/in_memory.py.
 from __future__ import annotations
 
 import ast
+import re
 from typing import Dict, List, Optional, Set, Tuple
 
 from ..cfg import CFG, edges_guaranteeing, returns_only_through
@@ -23,6 +24,7 @@ from ..engine import (
     qualname_of,
     walk_no_nested,
 )
+from ..normal import nfunc
 from ..report import Report
 
 F = "semantiva/execution/transport/in_memory.py"
@@ -33,15 +35,31 @@ REMOVERS = {"pop", "popitem", "clear", "__delitem__"}
 INSERTERS = {"setdefault", "update", "__setitem__", "__getitem__"}
 
 
+def _lock_names(e: ast.AST) -> List[str]:
+    """Dotted name of a context-manager expression and, for a local bound once to a lock expression
+    (``guard = self._lock``), what it names."""
+    d = dotted_name(e)
+    out = [d] if d else []
+    if isinstance(e, ast.Name):
+        fn = next((a for a in ancestors(e) if isinstance(a, FuncNode + (ast.Lambda,))), None)
+        if fn is not None and not isinstance(fn, ast.Lambda):
+            stores = [x for x in ast.walk(fn) if isinstance(x, ast.Name) and x.id == e.id and isinstance(x.ctx, ast.Store)]
+            vals = [n.value for n in ast.walk(fn) if isinstance(n, ast.Assign) and len(n.targets) == 1 and isinstance(n.targets[0], ast.Name) and n.targets[0].id == e.id]
+            if len(stores) == 1 and len(vals) == 1 and e.id not in {a.arg for a in fn.args.args}:
+                d2 = dotted_name(vals[0])
+                # the lock expression read is itself stable: an attribute of self, or a local bound once
+                if d2 and d2 != e.id and (d2.startswith("self.") or sum(1 for x in ast.walk(fn) if isinstance(x, ast.Name) and x.id == d2 and isinstance(x.ctx, ast.Store)) == 1):
+                    out.append(d2)
+    return out
+
+
 def locks_held(node: ast.AST) -> List[str]:
     """Dotted names of context managers of every enclosing ``with`` (innermost first)."""
     out: List[str] = []
     for a in ancestors(node):
         if isinstance(a, (ast.With, ast.AsyncWith)):
             for it in a.items:
-                d = dotted_name(it.context_expr)
-                if d:
-                    out.append(d)
+                out.extend(_lock_names(it.context_expr))
         if isinstance(a, FuncNode + (ast.Lambda,)):
             break
     return out
@@ -49,7 +67,7 @@ def locks_held(node: ast.AST) -> List[str]:
 
 def enclosing_with(node: ast.AST, lock: str) -> Optional[ast.With]:
     for a in ancestors(node):
-        if isinstance(a, ast.With) and any(dotted_name(it.context_expr) == lock for it in a.items):
+        if isinstance(a, ast.With) and any(lock in _lock_names(it.context_expr) for it in a.items):
             return a
         if isinstance(a, FuncNode + (ast.Lambda,)):
             return None
@@ -60,6 +78,7 @@ def enclosing_with(node: ast.AST, lock: str) -> Optional[ast.With]:
 # provenance of values taken from the shared channel map (role discovery, independent of local names)
 # ---------------------------------------------------------------------------------------------------
 K_MAP, K_ITEMS, K_ENTRIES, K_ENTRY, K_KEYS, K_KEY = "map", "items", "entries", "entry", "keys", "key"
+K_ITEM = "item"  # one (channel, entry) pair of the map's items
 PASS_THROUGH = {"list", "tuple", "sorted", "iter", "reversed"}
 
 
@@ -97,10 +116,10 @@ class Prov:
     (``.append(entry)``, ``yield entry``, comprehension elements): routing obligations move there.
     """
 
-    def __init__(self, cls: ast.ClassDef, map_attr: str):
+    def __init__(self, cls: ast.ClassDef, map_attr: str, methods: Optional[Dict[str, ast.AST]] = None):
         self.cls = cls
         self.map_attr = map_attr
-        self.methods: Dict[str, ast.AST] = {n.name: n for n in cls.body if isinstance(n, FuncNode)}
+        self.methods: Dict[str, ast.AST] = dict(methods) if methods is not None else {n.name: n for n in cls.body if isinstance(n, FuncNode)}
         self.env: Dict[int, Dict[str, Tuple[str, Optional[str]]]] = {id(f): {} for f in self.methods.values()}
         self.attr: Dict[str, str] = {}
         self.helper: Dict[str, str] = {}
@@ -166,9 +185,13 @@ class Prov:
             k, key = self.kind(e.value, fn)
             if k == K_MAP:
                 return K_ENTRY, _name(e.slice)
+            if k == K_ITEM and isinstance(e.slice, ast.Constant) and e.slice.value in (0, 1):
+                return (K_KEY if e.slice.value == 0 else K_ENTRY), None
             if k in (K_ITEMS, K_ENTRIES, K_KEYS):
                 if isinstance(e.slice, ast.Slice):
                     return k, None
+                if k == K_ITEMS:
+                    return K_ITEM, None
                 return {K_ENTRIES: K_ENTRY, K_KEYS: K_KEY}.get(k), None
             return None, None
         if isinstance(e, (ast.ListComp, ast.GeneratorExp, ast.SetComp)):
@@ -215,6 +238,13 @@ class Prov:
                 self.attr[target.attr] = kind
                 if final:
                     self.feeds.setdefault(f"attr:{target.attr}", []).append((fn, src, None, "value"))
+        elif isinstance(target, (ast.Tuple, ast.List)) and len(target.elts) == 2 and kind == K_ITEM:
+            # ``channel, entry = item`` / ``channel, (q, lock) = item``
+            kt, vt = target.elts
+            kname = kt.id if isinstance(kt, ast.Name) else None
+            if kname:
+                self._set(fn, kname, (K_KEY, None))
+            self._bind_target(fn, vt, (K_ENTRY, kname), src, final)
         elif isinstance(target, (ast.Tuple, ast.List)) and len(target.elts) == 2 and kind == K_ENTRY:
             a, b = target.elts
             if isinstance(a, ast.Name) and isinstance(b, ast.Name) and final:
@@ -228,6 +258,8 @@ class Prov:
             if key:
                 self._set(fn, key, (K_KEY, None))
             self._bind_target(fn, vt, (K_ENTRY, key), it, final)
+        elif k == K_ITEMS and isinstance(target, ast.Name):
+            self._set(fn, target.id, (K_ITEM, None))
         elif k == K_ENTRIES:
             self._bind_target(fn, target, (K_ENTRY, None), it, final)
         elif k in (K_KEYS, K_MAP) and isinstance(target, ast.Name):
@@ -405,8 +437,9 @@ def run(repo: Repo, R: Report) -> None:
     sub_pattern = None
     pattern_param = None
     for st in walk_no_nested(sinit):
-        if isinstance(st, ast.Assign) and len(st.targets) == 1 and isinstance(st.value, ast.Name) and st.value.id in sparams:
-            d = dotted_name(st.targets[0])
+        s_tgt = st.targets[0] if isinstance(st, ast.Assign) and len(st.targets) == 1 else st.target if isinstance(st, ast.AnnAssign) else None
+        if s_tgt is not None and isinstance(st.value, ast.Name) and st.value.id in sparams:
+            d = dotted_name(s_tgt)
             if d and d.startswith("self."):
                 idx = sparams.index(st.value.id)
                 if idx == 1:
@@ -434,6 +467,12 @@ def run(repo: Repo, R: Report) -> None:
                 R.check(ok0, r_alias, F, qn, norm(c), "subscription does not see the transport's live channel map: channels created later (or the entry a publisher uses) are invisible to it", c.lineno)
                 fparams = [a.arg for a in fn.args.args]
                 ok1 = isinstance(a1, ast.Name) and a1.id in fparams
+                if not ok1 and isinstance(a1, ast.Name):
+                    # a local naming the parameter (``pattern = channel``), still current at the call
+                    fl_ = _Flow(fn)
+                    at_ = fl_.node_of(c)
+                    rv = fl_.resolve(a1.id, at_) if at_ is not None else None
+                    ok1 = isinstance(rv, ast.Name) and rv.id in fparams
                 R.check(ok1, r_alias, F, qn, norm(c) + " [pattern]", "subscription pattern is not the caller's channel pattern unchanged", c.lineno)
     if n_ctor == 0:
         raise AnalysisError("no construction of InMemorySubscription found")
@@ -443,7 +482,11 @@ def run(repo: Repo, R: Report) -> None:
     publish_append_locks: List[List[str]] = []
     removal_sites: List[Tuple[str, ast.AST]] = []
 
-    prov = {TRANSPORT: Prov(tcls, shared_map), SUBSCRIPTION: Prov(scls, sub_map)}
+    # the methods are analysed in normal form (private helpers with a tail return inlined at their call, module
+    # constants substituted, if/else of one assignment merged); a helper absorbed at every call is analysed there,
+    # in the context (locks held, channel known) it really runs in
+    nmethods = _normal_methods(repo, mod, {TRANSPORT: tcls, SUBSCRIPTION: scls})
+    prov = {TRANSPORT: Prov(tcls, shared_map, nmethods[TRANSPORT]), SUBSCRIPTION: Prov(scls, sub_map, nmethods[SUBSCRIPTION])}
 
     def map_expr(e: ast.AST, cls_name: str, fn: Optional[ast.AST] = None) -> bool:
         d = dotted_name(e)
@@ -466,7 +509,7 @@ def run(repo: Repo, R: Report) -> None:
 
     # per-class scan
     for cls, cname in ((tcls, TRANSPORT), (scls, SUBSCRIPTION)):
-        for fn in [n for n in cls.body if isinstance(n, FuncNode)]:
+        for fn in prov[cname].methods.values():
             qn = f"{cname}.{fn.name}"
             for n in ast.walk(fn):
                 # classify accesses of the map
@@ -512,14 +555,14 @@ def run(repo: Repo, R: Report) -> None:
     # factory creates a fresh unbounded deque and a fresh lock per channel
     r_fac = R.rule("C14-D1-factory", "each channel gets its own fresh unbounded deque and its own fresh lock", 1)
     if factory is not None:
-        body = factory.body if isinstance(factory, ast.Lambda) else None
+        body, no_params = _factory_result(factory, tinit, mod, tcls)
         ok = False
-        why = "queue factory is not a lambda returning (deque(), Lock())"
+        why = "queue factory does not return (deque(), Lock())"
         if isinstance(body, ast.Tuple) and len(body.elts) == 2:
             dq, lk = body.elts
             ok = (
                 isinstance(dq, ast.Call) and call_attr(dq) == "deque" and not dq.keywords and len(dq.args) == 0
-                and isinstance(lk, ast.Call) and call_attr(lk) in ("Lock", "RLock") and not factory.args.args and not factory.args.defaults and not factory.args.kw_defaults
+                and isinstance(lk, ast.Call) and call_attr(lk) in ("Lock", "RLock") and no_params
             )
             if isinstance(dq, ast.Call) and (kwarg(dq, "maxlen") is not None or len(dq.args) > 1):
                 why = "per-channel deque is bounded (maxlen): messages beyond the bound are silently dropped"
@@ -532,6 +575,9 @@ def run(repo: Repo, R: Report) -> None:
         R.check(okv, r_fac, F, cqn, norm(val), why, getattr(val, "lineno", 0))
 
     # ---- deque protocol ---------------------------------------------------------------
+    if not any(b[0].startswith(SUBSCRIPTION) for b in deque_bindings):
+        # nothing below can be decided: which local is a channel's deque / lock on the consumer side is unknown
+        raise AnalysisError("consumer side: no (queue, lock) binding taken from the channel map recognised in InMemorySubscription")
     r_cons = R.rule("C14-D2-consumer", "the consumer's emptiness test and pop are one critical section under the channel's own lock, and the pop is guarded by the test", 1)
     r_fifo = R.rule("C14-D3-fifo", "producers append at one end and consumers pop from the other end of the same deque; nothing is re-queued by a consumer", 2)
     producer_ends: Set[str] = set()
@@ -554,17 +600,7 @@ def run(repo: Repo, R: Report) -> None:
                     consumer_ends.add("left" if m == "popleft" else "right")
                     w = enclosing_with(n, lv)
                     ok_lock = w is not None
-                    guarded = False
-                    if w is not None:
-                        for a in ancestors(n):
-                            if a is w:
-                                break
-                            if isinstance(a, ast.IfExp) and _mentions(a.test, qv) and _within(n, a.body):
-                                guarded = True
-                            if isinstance(a, (ast.If, ast.While)) and _mentions(a.test, qv) and any(_within(n, s) for s in a.body):
-                                guarded = True
-                            if isinstance(a, ast.Try) and any(_within(n, s) for s in a.body) and any(h.type is None or "IndexError" in ast.unparse(h.type) for h in a.handlers):
-                                guarded = True
+                    guarded = w is not None and _pop_guarded(fn, w, n, qv)
                     R.check(ok_lock, r_cons, F, qn, norm(stmt(n)), f"pop from the channel deque outside `with {lv}:` (its own lock): two consumers can both see the same head / the test and pop are not atomic", n.lineno)
                     if ok_lock:
                         R.check(guarded, r_cons, F, qn, norm(stmt(n)) + " [guarded]", "pop is not guarded by an emptiness test inside the same critical section (IndexError on a race, or test outside the lock)", n.lineno)
@@ -598,126 +634,25 @@ def run(repo: Repo, R: Report) -> None:
         R.check(bool(safe), r_stab, F, qn, norm(stmt(n)), "an entry is removed/replaced while publish() holds a reference fetched earlier and appends afterwards: the message lands in an orphaned deque and is never delivered", getattr(n, "lineno", 0))
 
     # ---- exactly-once hand-over + routing --------------------------------------------
-    it = repo.func(F, f"{SUBSCRIPTION}.__iter__")
-    r_once = R.rule("C14-D2-once", "every popped message is yielded exactly once before the next pop or the end of the iteration, and only popped messages are yielded", 2)
+    repo.func(F, f"{SUBSCRIPTION}.__iter__")  # anchor
+    it = prov[SUBSCRIPTION].methods["__iter__"]
+    r_once = R.rule("C14-D2-once", "every popped message is handed on exactly once (yielded by the iterator / returned by a helper whose caller yields it) before the next pop or the end of the function, and only popped messages are yielded", 2)
     r_route = R.rule("C14-D3-routing", "every yield is dominated by fnmatch(<channel of the popped queue>, self.<pattern>) holding", 1)
-    yields = [n for n in walk_no_nested(it) if isinstance(n, (ast.Yield, ast.YieldFrom))]
-    if not yields:
+    if not any(isinstance(n, (ast.Yield, ast.YieldFrom)) for n in walk_no_nested(it)):
         raise AnalysisError("InMemorySubscription.__iter__ has no yield")
-    binding = next((b for b in deque_bindings if b[1] is it), None)
-    if binding is None:
-        raise AnalysisError("__iter__: (queue, lock) binding from the channel map not recognised")
-    _, _, qv, lv, kv = binding
-    msg_vars: Set[str] = set()
-    pop_stmts: List[ast.AST] = []
-    for n in walk_no_nested(it):
-        if isinstance(n, ast.Assign) and len(n.targets) == 1 and isinstance(n.targets[0], ast.Name):
-            pops = [c for c in ast.walk(n.value) if isinstance(c, ast.Call) and isinstance(c.func, ast.Attribute) and c.func.attr in ("pop", "popleft") and isinstance(c.func.value, ast.Name) and c.func.value.id == qv]
-            if not pops and isinstance(n.value, ast.Call) and _pop_helper_call(prov[SUBSCRIPTION], n.value, qv):
-                # msg = self._take(q, lock): a helper whose every result is the message it popped from q (or None)
-                msg_vars.add(n.targets[0].id)
-                pop_stmts.append(n)
-            if pops:
-                v = n.value
-                shape_ok = v is pops[0] or (isinstance(v, ast.IfExp) and v.body is pops[0] and isinstance(v.orelse, ast.Constant) and v.orelse.value is None)
-                if shape_ok:
-                    msg_vars.add(n.targets[0].id)
-                    pop_stmts.append(n)
-    for y in yields:
-        v = y.value
-        ok = isinstance(y, ast.Yield) and isinstance(v, ast.Name) and v.id in msg_vars
-        if ok:
-            # the message variable has no other definition
-            others = [a for a in walk_no_nested(it) if isinstance(a, ast.Assign) and any(isinstance(t, ast.Name) and t.id == v.id for t in a.targets) and a not in pop_stmts
-                      and not (isinstance(a.value, ast.Constant) and a.value.value is None)]
-            ok = not others
-        R.check(bool(ok), r_once, F, f"{SUBSCRIPTION}.__iter__", norm(stmt(y)), "a yielded value is not (only) the message just popped from the queue", y.lineno)
-
-    def fold(test: ast.AST) -> Optional[bool]:
-        names = {n.id for n in ast.walk(test) if isinstance(n, ast.Name)}
-        if names and names <= msg_vars and not any(isinstance(n, ast.Call) for n in ast.walk(test)):
-            if isinstance(test, ast.Name):
-                return True
-            if isinstance(test, ast.Compare) and len(test.ops) == 1 and isinstance(test.ops[0], ast.IsNot) and isinstance(test.comparators[0], ast.Constant):
-                return True
-            if isinstance(test, ast.UnaryOp) and isinstance(test.op, ast.Not):
-                return False
-            if isinstance(test, ast.Compare) and len(test.ops) == 1 and isinstance(test.ops[0], ast.Is) and isinstance(test.comparators[0], ast.Constant):
-                return False
-        return None
-
-    g = CFG(it, fold=fold, may_raise=lambda part: set())
-    # sinks: every (re)definition of the message variable ends the life of the popped message
-    sink_ids = [n.id for n in g.nodes if n.ast is not None and n.kind == "stmt" and isinstance(n.ast, ast.Assign)
-                and any(isinstance(t, ast.Name) and t.id in msg_vars for t in n.ast.targets)]
-    is_yield = lambda n: n.ast is not None and n.kind == "stmt" and any(isinstance(x, ast.Yield) for x in walk_no_nested(n.ast))
-    for ps in pop_stmts:
-        pn = g.nodes_for(ps)
-        if not pn:
-            continue
-        starts = [t for t, lab in g.succ[pn[0]] if lab == "n"]
-        saved = {sid: g.succ[sid] for sid in sink_ids}
-        for sid in sink_ids:
-            g.succ[sid] = []
-        try:
-            cnt = g.counts(starts, is_yield, count_start=True)
-        finally:
-            for sid, v in saved.items():
-                g.succ[sid] = v
-        got = set(cnt.get(g.ret_exit, set()))
-        for sid in sink_ids:
-            got |= cnt.get(sid, set())
-        R.check(got <= {1} and bool(got), r_once, F, f"{SUBSCRIPTION}.__iter__", norm(ps) + " -> yield",
-                f"between popping a message and the next pop / end of iteration the message is yielded {sorted(got)} time(s) (0 = lost, 2 = duplicated)", ps.lineno)
-
-    def make_atom(key: Optional[str]):
-        def route_atom(e: ast.AST) -> Optional[bool]:
-            if key is not None and isinstance(e, ast.Call) and call_attr(e) in ("fnmatch", "fnmatchcase") and len(e.args) == 2 and not e.keywords:
-                a, b = e.args
-                if isinstance(a, ast.Name) and a.id == key and dotted_name(b) == f"self.{sub_pattern}":
-                    return True
-            return None
-        return route_atom
-
-    def routed_at(rfn: ast.AST, node: ast.AST, key: Optional[str]) -> Tuple[bool, List[str]]:
-        """Statement of *node* in *rfn* is reachable only through a branch on which fnmatch(key, pattern) holds."""
-        if key is None:
-            return False, []
-        gg = CFG(rfn, may_raise=lambda part: set())
-        st_ = stmt(node)
-        ids = [x.id for x in gg.nodes if x.ast is st_]
-        if not ids:
-            return False, []
-        holds_, path_, guards_ = returns_only_through(gg, make_atom(key), targets=ids)
-        return bool(holds_ and guards_ > 0), path_
-
-    if kv is not None:
-        g2 = CFG(it, may_raise=lambda part: set())
-        ynodes = [n.id for n in g2.nodes if n.ast is not None and n.kind == "stmt" and any(isinstance(x, (ast.Yield, ast.YieldFrom)) for x in walk_no_nested(n.ast))]
-        pnodes = [n.id for n in g2.nodes if n.ast is not None and any(ps is n.ast for ps in pop_stmts)]
-        holds, path, guards = returns_only_through(g2, make_atom(kv), targets=ynodes + pnodes)
-        R.check(holds and guards > 0, r_route, F, f"{SUBSCRIPTION}.__iter__", f"fnmatch({kv}, self.{sub_pattern}) dominates pop and yield",
-                "a message can be taken from / yielded for a channel that does not match the subscription pattern", it.lineno, path)
-    else:
-        # the consumer iterates over entries selected elsewhere (helper, generator, cached list):
-        # the routing obligation sits where an entry is selected
-        src = binding_src.get((id(it), qv))
-        sites = prov[SUBSCRIPTION].origins(src, it) if src is not None else []
-        if not sites:
-            R.violation(r_route, F, f"{SUBSCRIPTION}.__iter__", norm(src) if src is not None else "queue source",
-                        "the consumer's queues are not selected by fnmatch(<channel>, self.<pattern>) anywhere", it.lineno)
-        for sfn, node, key, how in sites:
-            sqn = f"{SUBSCRIPTION}.{getattr(sfn, 'name', '?')}"
-            if how == "comp":
-                ok_r = key is not None and any(
-                    "T" in edges_guaranteeing(cond, make_atom(key)) for gen in node.generators for cond in gen.ifs)
-                path_r: List[str] = []
-            elif how == "site":
-                ok_r, path_r = routed_at(sfn, node, key)
-            else:
-                ok_r, path_r = False, []
-            R.check(ok_r, r_route, F, sqn, norm(stmt(node)) + " [selects a queue for the consumer]",
-                    "a channel's queue is handed to the consumer without fnmatch(<its channel>, self.<pattern>) holding: messages of channels that do not match the subscription pattern are yielded", getattr(node, "lineno", 0), path_r)
+    hand = _HandOver(R, prov[SUBSCRIPTION], deque_bindings, binding_src, sub_pattern, r_once, r_route)
+    top = hand.analyse(it, "yield")
+    for chk in top["checks"]:
+        chk()
+    if not top["pops"]:
+        if not any(b[1] is it for b in deque_bindings):
+            raise AnalysisError("__iter__: (queue, lock) binding from the channel map not recognised")
+    # a function of the subscription that pops from a channel queue but whose hand-over was not analysed
+    for qn_, fn_, qv_, _lv, _kv in deque_bindings:
+        if qn_.startswith(SUBSCRIPTION) and id(fn_) not in hand.done and any(
+                isinstance(c, ast.Call) and isinstance(c.func, ast.Attribute) and c.func.attr in ("pop", "popleft")
+                and isinstance(c.func.value, ast.Name) and c.func.value.id == qv_ for c in ast.walk(fn_)):
+            R.violation(r_once, F, qn_, "consumer pop", "messages are taken from a channel queue by a function whose result the iterator does not hand on (they are never yielded)", fn_.lineno)
 
     # ---- scan completeness ------------------------------------------------------------------------------
     r_scan = R.rule("C14-D3-scan-complete", "state a subscription keeps between scans to skip channels (a progress marker used to slice or to skip the scan) is computed from the snapshot that was actually scanned, never from another read of the live map", 0)
@@ -751,45 +686,540 @@ def run(repo: Repo, R: Report) -> None:
                             f"the scan-progress marker self.{t.attr} is taken from a fresh read of the live channel map, not from the snapshot that was scanned: a channel created between the snapshot and this read counts as scanned without ever having been matched, and its messages are never delivered to this subscription", n.lineno)
 
 
-def _is_pop_of(v: ast.AST, q: str) -> bool:
-    def pop(c: ast.AST) -> bool:
-        return (isinstance(c, ast.Call) and isinstance(c.func, ast.Attribute) and c.func.attr in ("pop", "popleft")
-                and isinstance(c.func.value, ast.Name) and c.func.value.id == q and not c.args)
-    return pop(v) or (isinstance(v, ast.IfExp) and pop(v.body) and isinstance(v.orelse, ast.Constant) and v.orelse.value is None)
+def _normal_methods(repo: Repo, mod, classes: Dict[str, ast.ClassDef]) -> Dict[str, Dict[str, ast.AST]]:
+    """Normal form of every method of the two classes; private helpers whose every use was inlined are dropped
+    (their body is analysed at each call site instead of out of context)."""
+    out: Dict[str, Dict[str, ast.AST]] = {}
+    for cname, cls in classes.items():
+        out[cname] = {}
+        for n in cls.body:
+            if isinstance(n, FuncNode):
+                try:
+                    out[cname][n.name] = nfunc(repo, F, f"{cname}.{n.name}")
+                except AnalysisError:
+                    raise
+                except Exception:
+                    out[cname][n.name] = n
 
+    def refs(tree: ast.AST, name: str) -> int:
+        return sum(1 for x in ast.walk(tree) if (isinstance(x, ast.Attribute) and x.attr == name) or (isinstance(x, ast.Name) and x.id == name))
 
-def _pop_helper_call(sp: "Prov", call: ast.Call, qv: str) -> bool:
-    """``self.h(.., q, ..)`` where every value returned by ``h`` is the message popped from the parameter bound to q, or None."""
-    f = call.func
-    if not (isinstance(f, ast.Attribute) and isinstance(f.value, ast.Name) and f.value.id == "self" and f.attr in sp.methods):
-        return False
-    h = sp.methods[f.attr]
-    hp = [a.arg for a in h.args.args][1:]
-    pq = None
-    for i, a in enumerate(call.args):
-        if isinstance(a, ast.Name) and a.id == qv and i < len(hp):
-            pq = hp[i]
-    for k in call.keywords:
-        if isinstance(k.value, ast.Name) and k.value.id == qv:
-            pq = k.arg
-    if pq is None or any(isinstance(x, (ast.Yield, ast.YieldFrom)) for x in ast.walk(h)):
-        return False
-    rets = [r for r in ast.walk(h) if isinstance(r, ast.Return)]
-    n_pops = 0
-    for r in rets:
-        v = r.value
-        if v is None or (isinstance(v, ast.Constant) and v.value is None):
-            continue
-        if _is_pop_of(v, pq):
-            n_pops += 1
-            continue
-        if isinstance(v, ast.Name):
-            defs = _assigned(h, v.id)
-            if defs and all(_is_pop_of(d, pq) or (isinstance(d, ast.Constant) and d.value is None) for d in defs) and any(_is_pop_of(d, pq) for d in defs):
-                n_pops += 1
+    for cname, cls in classes.items():
+        for name in list(out[cname]):
+            if not name.startswith("_") or name.startswith("__"):
                 continue
+            if not any(name in getattr(f, "_inlined", ()) for f in out[cname].values()):
+                continue
+            self_calls = sum(1 for m in cls.body if isinstance(m, FuncNode) for c in ast.walk(m)
+                             if isinstance(c, ast.Call) and isinstance(c.func, ast.Attribute) and c.func.attr == name
+                             and isinstance(c.func.value, ast.Name) and c.func.value.id == "self")
+            if refs(mod.tree, name) != self_calls:
+                continue  # referenced in another way (callback, another object, module level)
+            if any(refs(f, name) for cn in out for k, f in out[cn].items() if not (cn == cname and k == name)):
+                continue  # a call that could not be inlined remains
+            if any(m is not mod and re.search(r"\b%s\b" % re.escape(name), m.source) for m in repo.modules.values()):
+                continue
+            del out[cname][name]
+    return out
+
+
+def _factory_result(factory: ast.AST, tinit: ast.AST, mod, tcls: ast.ClassDef) -> Tuple[Optional[ast.AST], bool]:
+    """(expression a call of the default factory evaluates to, factory takes no arguments): a lambda, a local naming
+    a lambda, a module-level function or a method / staticmethod of the transport whose body is one ``return``."""
+    f = factory
+    if isinstance(f, ast.Name):
+        vals = [v for n in walk_no_nested(tinit) if isinstance(n, (ast.Assign, ast.AnnAssign)) and getattr(n, "value", None) is not None
+                for t in (n.targets if isinstance(n, ast.Assign) else [n.target]) if isinstance(t, ast.Name) and t.id == f.id for v in [n.value]]
+        if len(vals) == 1:
+            f = vals[0]
+        elif not vals and isinstance(mod.defs.get(f.id), ast.FunctionDef):
+            f = mod.defs[f.id]
+    elif isinstance(f, ast.Attribute) and isinstance(f.value, ast.Name) and f.value.id in ("self", tcls.name):
+        m = next((n for n in tcls.body if isinstance(n, ast.FunctionDef) and n.name == f.attr), None)
+        if m is not None:
+            f = m
+    if isinstance(f, ast.Lambda):
+        a = f.args
+        return f.body, not (a.args or a.posonlyargs or a.kwonlyargs or a.vararg or a.kwarg)
+    if isinstance(f, ast.FunctionDef):
+        body = [b for b in f.body if not (isinstance(b, ast.Expr) and isinstance(b.value, ast.Constant))]
+        a = f.args
+        static = any(dotted_name(d) == "staticmethod" for d in f.decorator_list)
+        is_method = parent(f) is tcls and not static
+        n_pos = len(a.args) + len(a.posonlyargs) - (1 if is_method else 0)
+        if len(body) == 1 and isinstance(body[0], ast.Return) and body[0].value is not None:
+            return body[0].value, not (n_pos > 0 or a.kwonlyargs or a.vararg or a.kwarg)
+    return None, False
+
+
+def _is_none(e: Optional[ast.AST]) -> bool:
+    return e is None or (isinstance(e, ast.Constant) and e.value is None)
+
+
+def _defines(n, name: str) -> bool:
+    """CFG node *n* (re)binds local *name* (assignment incl. tuple targets, for-target, with-as, except-as, walrus)."""
+    a = n.ast
+    if a is None:
         return False
-    return n_pops > 0
+    if n.kind == "stmt" and isinstance(a, (ast.Assign, ast.AnnAssign, ast.AugAssign)):
+        tgts = a.targets if isinstance(a, ast.Assign) else [a.target]
+        if any(isinstance(x, ast.Name) and x.id == name and isinstance(x.ctx, ast.Store) for t in tgts for x in ast.walk(t)):
+            return True
+    if n.kind == "for" and isinstance(a, (ast.For, ast.AsyncFor)) and any(isinstance(x, ast.Name) and x.id == name for x in ast.walk(a.target)):
+        return True
+    if n.kind == "with" and isinstance(a, (ast.With, ast.AsyncWith)) and any(
+            it.optional_vars is not None and any(isinstance(x, ast.Name) and x.id == name for x in ast.walk(it.optional_vars)) for it in a.items):
+        return True
+    if n.kind == "except" and isinstance(a, ast.ExceptHandler) and a.name == name:
+        return True
+    part = n.part if n.part is not None else (a if n.kind == "stmt" else None)
+    if part is not None and any(isinstance(x, ast.NamedExpr) and isinstance(x.target, ast.Name) and x.target.id == name for x in walk_no_nested(part)):
+        return True
+    if n.kind == "stmt" and isinstance(a, (ast.Delete, ast.Import, ast.ImportFrom) + FuncNode + (ast.ClassDef,)):
+        return name in {getattr(a, "name", None)} | {x.id for x in ast.walk(a) if isinstance(x, ast.Name) and isinstance(x.ctx, ast.Del)} | {
+            (al.asname or al.name).split(".")[0] for al in getattr(a, "names", []) if isinstance(al, ast.alias)}
+    return False
+
+
+class _Flow:
+    """Def/use questions on one function, answered on its CFG (not on statement order)."""
+
+    def __init__(self, fn: ast.AST):
+        self.fn = fn
+        self.g = CFG(fn, may_raise=lambda part: set())
+        self._defs: Dict[str, List[int]] = {}
+
+    def defs(self, name: str) -> List[int]:
+        if name not in self._defs:
+            self._defs[name] = [n.id for n in self.g.nodes if _defines(n, name)]
+        return self._defs[name]
+
+    def node_of(self, node: ast.AST) -> Optional[int]:
+        """CFG node in which expression / statement *node* is evaluated."""
+        cur: Optional[ast.AST] = node
+        while cur is not None and cur is not self.fn:
+            ids = self.g.nodes_for(cur)
+            if ids:
+                return ids[0]
+            cur = parent(cur)
+        return None
+
+    def stale_between(self, names: Set[str], d: int, use: int) -> bool:
+        """Some name of *names* can be rebound after node *d* ran and before *use* runs."""
+        for nm in names:
+            for x in self.defs(nm):
+                if x == d:
+                    continue
+                starts = [t for t, _l in self.g.succ[x] if t != d]
+                if x == use or use in self.g.reach(starts, blocked={d}) or use in starts:
+                    # x == use: the use node itself rebinds the name only after evaluating (for-target): harmless
+                    if x == use:
+                        continue
+                    return True
+        return False
+
+    def resolve(self, name: str, use: int, depth: int = 0) -> Optional[ast.AST]:
+        """The expression local *name* stands for at node *use*: it has one reaching definition there, a plain
+        ``name = expr``, and nothing *expr* reads has been rebound since (so *expr* evaluated now gives the same value)."""
+        if depth > 4 or name == "self":
+            return None
+        ds = self.defs(name)
+        reaching = []
+        for d in ds:
+            blocked = {o for o in ds if o != d and o != use}
+            starts = [t for t, _l in self.g.succ[d]]
+            if use in starts or use in self.g.reach(starts, blocked=blocked):
+                reaching.append(d)
+        if len(reaching) != 1:
+            return None
+        d = reaching[0]
+        a = self.g.nodes[d].ast
+        if self.g.nodes[d].kind != "stmt":
+            return None
+        if isinstance(a, ast.Assign) and len(a.targets) == 1 and isinstance(a.targets[0], ast.Name) and a.targets[0].id == name:
+            v = a.value
+        elif isinstance(a, ast.AnnAssign) and isinstance(a.target, ast.Name) and a.target.id == name and a.value is not None:
+            v = a.value
+        else:
+            return None
+        if any(isinstance(x, (ast.NamedExpr, ast.Yield, ast.YieldFrom, ast.Await)) for x in ast.walk(v)):
+            return None
+        v = self.expand(v, d, depth + 1)
+        names = {x.id for x in ast.walk(v) if isinstance(x, ast.Name) and x.id != "self"}
+        if self.stale_between(names, d, use):
+            return None
+        return v
+
+    def expand(self, e: ast.AST, use: int, depth: int = 0) -> ast.AST:
+        """*e* with named sub-conditions / aliases replaced by what they stand for at node *use*
+        (through ``not`` / ``and`` / ``or`` / the arguments of fnmatch; anything else is left as written)."""
+        if isinstance(e, ast.Name) and isinstance(e.ctx, ast.Load):
+            v = self.resolve(e.id, use, depth)
+            if v is not None and (isinstance(v, (ast.Name, ast.UnaryOp, ast.BoolOp, ast.Compare)) or dotted_name(v) is not None
+                                  or (isinstance(v, ast.Call) and call_attr(v) in ("fnmatch", "fnmatchcase", "bool"))):
+                return v
+            return e
+        if isinstance(e, ast.UnaryOp) and isinstance(e.op, ast.Not):
+            return ast.UnaryOp(op=e.op, operand=self.expand(e.operand, use, depth))
+        if isinstance(e, ast.BoolOp):
+            return ast.BoolOp(op=e.op, values=[self.expand(v, use, depth) for v in e.values])
+        if isinstance(e, ast.Call) and call_attr(e) in ("fnmatch", "fnmatchcase") and not e.keywords:
+            return ast.Call(func=e.func, args=[self.expand(x, use, depth) for x in e.args], keywords=[])
+        if isinstance(e, ast.Call) and isinstance(e.func, ast.Name) and e.func.id == "bool" and len(e.args) == 1 and not e.keywords:
+            return self.expand(e.args[0], use, depth)
+        return e
+
+    def only_through(self, atom, targets: List[int]) -> Tuple[bool, List[str], int]:
+        """*targets* are reachable from the entry only over a branch edge on which *atom* holds
+        (tests are read with their named sub-conditions expanded)."""
+        blocked_edges: Set[Tuple[int, str]] = set()
+        guards = 0
+        for n in self.g.nodes:
+            if n.kind in ("if", "while") and n.part is not None:
+                e = edges_guaranteeing(self.expand(n.part, n.id), atom)
+                if e:
+                    guards += 1
+                for lab in e:
+                    blocked_edges.add((n.id, lab))
+        seen = self.g.reach([self.g.entry], blocked_edges=blocked_edges)
+        for t in targets:
+            if t in seen:
+                return False, self.g.path_to(seen, t), guards
+        return True, [], guards
+
+
+class _HandOver:
+    """Exactly-once hand-over and routing on the consumer side.
+
+    ``analyse(fn, mode)``: in the generator (mode 'yield') a popped message is handed on by ``yield``; a helper of
+    the subscription that pops and *returns* the message (mode 'return') hands it on by ``return`` and its call is a
+    pop statement of the caller.  The routing obligation sits in the function that takes the queue out of the channel
+    map (it knows the channel); for a queue received as parameter it sits at the call."""
+
+    def __init__(self, R: Report, sp: "Prov", deque_bindings, binding_src, sub_pattern: str, r_once: str, r_route: str):
+        self.R, self.sp, self.deque_bindings, self.binding_src = R, sp, deque_bindings, binding_src
+        self.sub_pattern, self.r_once, self.r_route = sub_pattern, r_once, r_route
+        self.done: Set[int] = set()
+        self.summaries: Dict[str, Optional[dict]] = {}
+        self.flows: Dict[int, _Flow] = {}
+
+    def flow(self, fn: ast.AST) -> _Flow:
+        if id(fn) not in self.flows:
+            self.flows[id(fn)] = _Flow(fn)
+        return self.flows[id(fn)]
+
+    # -- helpers of the subscription that return the message they popped ---------------------------------
+    def helper(self, name: str) -> Optional[dict]:
+        if name in self.summaries:
+            return self.summaries[name]
+        self.summaries[name] = None  # recursion: not a source
+        h = self.sp.methods[name]
+        if any(isinstance(x, (ast.Yield, ast.YieldFrom)) for x in walk_no_nested(h)):
+            return None
+        s = self.analyse(h, "return")
+        if not s["pops"]:
+            self.done.discard(id(h))
+            return None
+        for chk in s["checks"]:
+            chk()
+        self.summaries[name] = s
+        return s
+
+    def make_atom(self, key: Optional[str]):
+        pat = f"self.{self.sub_pattern}"
+
+        def route_atom(e: ast.AST) -> Optional[bool]:
+            if key is not None and isinstance(e, ast.Call) and call_attr(e) in ("fnmatch", "fnmatchcase") and len(e.args) == 2 and not e.keywords:
+                a, b = e.args
+                if isinstance(a, ast.Name) and a.id == key and dotted_name(b) == pat:
+                    return True
+            return None
+        return route_atom
+
+    def routed_at(self, rfn: ast.AST, node: ast.AST, key: Optional[str]) -> Tuple[bool, List[str]]:
+        """Statement of *node* in *rfn* is reachable only through a branch on which fnmatch(key, pattern) holds."""
+        if key is None:
+            return False, []
+        fl = self.flow(rfn)
+        nid = fl.node_of(stmt(node))
+        if nid is None:
+            return False, []
+        holds_, path_, guards_ = fl.only_through(self.make_atom(key), [nid])
+        return bool(holds_ and guards_ > 0), path_
+
+    # -- one function ------------------------------------------------------------------------------------
+    def analyse(self, fn: ast.AST, mode: str) -> dict:
+        R, sp, r_once, r_route = self.R, self.sp, self.r_once, self.r_route
+        self.done.add(id(fn))
+        qn = f"{SUBSCRIPTION}.{fn.name}"
+        checks: List = []
+        binds = [(qv, lv, kv) for (_q, bfn, qv, lv, kv) in self.deque_bindings if bfn is fn]
+        qvars = {b[0] for b in binds}
+        params = {a.arg for a in fn.args.args + fn.args.kwonlyargs + fn.args.posonlyargs}
+        fl = self.flow(fn)
+
+        def source(v: Optional[ast.AST]) -> Optional[Tuple[Optional[str], ast.Call]]:
+            """*v* evaluates to the message just taken out of a channel queue, or to a false value when the queue
+            was empty: (local naming the queue | None when a helper selects the queue itself, the taking call)."""
+            core = v
+            if isinstance(core, ast.IfExp):
+                if _is_none(core.orelse) and not _is_none(core.body):
+                    core = core.body
+                elif _is_none(core.body):
+                    core = core.orelse
+                else:
+                    return None
+            elif isinstance(core, ast.BoolOp) and isinstance(core.op, ast.And):
+                core = core.values[-1]
+            if not (isinstance(core, ast.Call) and isinstance(core.func, ast.Attribute) and isinstance(core.func.value, ast.Name)):
+                return None
+            f = core.func
+            if f.attr in ("pop", "popleft") and f.value.id in qvars:
+                return f.value.id, core
+            if f.value.id == "self" and f.attr in sp.methods and sp.methods[f.attr] is not fn:
+                s = self.helper(f.attr)
+                if s is None:
+                    return None
+                h = sp.methods[f.attr]
+                hp = [a.arg for a in h.args.args][1:]
+                passed: Dict[str, ast.AST] = {}
+                for i, a in enumerate(core.args):
+                    if i < len(hp):
+                        passed[hp[i]] = a
+                for k in core.keywords:
+                    if k.arg:
+                        passed[k.arg] = k.value
+                mine: Set[str] = set()
+                for pq in s["qparams"]:
+                    a = passed.get(pq)
+                    if not (isinstance(a, ast.Name) and a.id in qvars):
+                        return None
+                    mine.add(a.id)
+                if len(mine) > 1:
+                    return None
+                return (next(iter(mine)) if mine else None), core
+            return None
+
+        # pop statements: ``m = <source>``; in a helper also ``return <source>``
+        pop_stmts: List[Tuple[ast.AST, Optional[str], Optional[str], ast.Call]] = []  # (stmt, message local, queue local, call)
+        for n in walk_no_nested(fn):
+            tgt = val = None
+            if isinstance(n, ast.Assign) and len(n.targets) == 1 and isinstance(n.targets[0], ast.Name):
+                tgt, val = n.targets[0].id, n.value
+            elif isinstance(n, ast.AnnAssign) and isinstance(n.target, ast.Name) and n.value is not None:
+                tgt, val = n.target.id, n.value
+            elif isinstance(n, ast.Return) and mode == "return" and not _is_none(n.value):
+                val = n.value
+            if val is None:
+                continue
+            src = source(val)
+            if src is not None:
+                pop_stmts.append((n, tgt, src[0], src[1]))
+        msg_vars = {m for _s, m, _q, _c in pop_stmts if m is not None}
+        taken = {id(c) for _s, _m, _q, c in pop_stmts}
+
+        # every call that takes a message out of a queue is such a statement (the message is not dropped on the floor)
+        for c in walk_no_nested(fn):
+            if not (isinstance(c, ast.Call) and isinstance(c.func, ast.Attribute) and isinstance(c.func.value, ast.Name)) or id(c) in taken:
+                continue
+            f = c.func
+            is_take = (f.attr in ("pop", "popleft") and f.value.id in qvars) or (
+                f.value.id == "self" and f.attr in sp.methods and sp.methods[f.attr] is not fn and self.summaries.get(f.attr))
+            if is_take:
+                checks.append(lambda c=c: R.violation(r_once, F, qn, norm(stmt(c)) + " [taken]", "a message is taken out of a channel queue but not kept in a local that is handed on (it can only be lost)", c.lineno))
+
+        # a message local has no definition other than pop statements and ``= None``
+        dirty: Set[str] = set()
+        pop_nodes = {id(s) for s, _m, _q, _c in pop_stmts}
+        for m in msg_vars:
+            for d in fl.defs(m):
+                a = fl.g.nodes[d].ast
+                if id(a) in pop_nodes:
+                    continue
+                if fl.g.nodes[d].kind == "stmt" and isinstance(a, (ast.Assign, ast.AnnAssign)) and _is_none(a.value) and a.value is not None:
+                    continue
+                dirty.add(m)
+
+        def message_of(e: Optional[ast.AST], use: Optional[int]) -> Optional[str]:
+            """The message local *e* stands for at node *use* (itself, or a current alias of it)."""
+            if isinstance(e, ast.Name) and e.id in msg_vars:
+                return e.id
+            if isinstance(e, ast.Name) and use is not None:
+                v = fl.resolve(e.id, use)
+                if isinstance(v, ast.Name) and v.id in msg_vars:
+                    return v.id
+            return None
+
+        # hand-over sites
+        hands: List[Tuple[ast.AST, Optional[str]]] = []  # (statement, message local | None = not a popped message)
+        for n in walk_no_nested(fn):
+            if isinstance(n, ast.Yield):
+                st_ = stmt(n)
+                m = message_of(n.value, fl.node_of(st_))
+                ok = mode == "yield" and m is not None and m not in dirty
+                hands.append((st_, m))
+                checks.append(lambda ok=ok, st_=st_, n=n: R.check(bool(ok), r_once, F, qn, norm(st_), "a yielded value is not (only) the message just popped from the queue", n.lineno))
+            elif isinstance(n, ast.YieldFrom):
+                st_ = stmt(n)
+                hands.append((st_, None))
+                checks.append(lambda st_=st_, n=n: R.violation(r_once, F, qn, norm(st_), "a yielded value is not (only) the message just popped from the queue", n.lineno))
+            elif isinstance(n, ast.Return) and mode == "return" and not _is_none(n.value):
+                if id(n) in pop_nodes:
+                    hands.append((n, None))
+                    checks.append(lambda n=n: R.ok(r_once, F, qn, norm(n), "returns the message it pops", n.lineno))
+                    continue
+                m = message_of(n.value, fl.node_of(n))
+                ok = m is not None and m not in dirty
+                hands.append((n, m))
+                checks.append(lambda ok=ok, n=n: R.check(bool(ok), r_once, F, qn, norm(n), "a helper of the consumer returns something else than the message it just popped from the queue (or None)", n.lineno))
+        hand_ids = {id(s) for s, _m in hands}
+
+        # exactly one hand-over between a pop and the next (re)definition of the message local / the end
+        aliases = {x.id for x in ast.walk(fn) if isinstance(x, ast.Name) and isinstance(x.ctx, ast.Store) and x.id not in msg_vars
+                   and all(fl.g.nodes[d].kind == "stmt" and isinstance(fl.g.nodes[d].ast, ast.Assign) and isinstance(fl.g.nodes[d].ast.value, ast.Name)
+                           and fl.g.nodes[d].ast.value.id in msg_vars for d in fl.defs(x.id)) and len(fl.defs(x.id)) == 1}
+        msg_like = msg_vars | aliases
+
+        def fold(test: ast.AST) -> Optional[bool]:
+            names = {n.id for n in ast.walk(test) if isinstance(n, ast.Name)}
+            if names and names <= msg_like and not any(isinstance(n, ast.Call) for n in ast.walk(test)):
+                if isinstance(test, ast.Name):
+                    return True
+                if isinstance(test, ast.Compare) and len(test.ops) == 1 and isinstance(test.ops[0], ast.IsNot) and isinstance(test.comparators[0], ast.Constant):
+                    return True
+                if isinstance(test, ast.UnaryOp) and isinstance(test.op, ast.Not):
+                    return False
+                if isinstance(test, ast.Compare) and len(test.ops) == 1 and isinstance(test.ops[0], ast.Is) and isinstance(test.comparators[0], ast.Constant):
+                    return False
+            return None
+
+        g = CFG(fn, fold=fold, may_raise=lambda part: set())
+        sink_ids = [n.id for n in g.nodes if any(_defines(n, m) for m in msg_vars)]
+        is_hand = lambda n: n.ast is not None and n.kind == "stmt" and id(n.ast) in hand_ids
+        for ps, m, _q, _c in pop_stmts:
+            pn = g.nodes_for(ps)
+            if not pn or isinstance(ps, ast.Return):
+                continue
+            starts = [t for t, lab in g.succ[pn[0]] if lab == "n"]
+            saved = {sid: g.succ[sid] for sid in sink_ids}
+            for sid in sink_ids:
+                g.succ[sid] = []
+            try:
+                cnt = g.counts(starts, is_hand, count_start=True)
+            finally:
+                for sid, v in saved.items():
+                    g.succ[sid] = v
+            got = set(cnt.get(g.ret_exit, set()))
+            for sid in sink_ids:
+                got |= cnt.get(sid, set())
+            verb = "yielded" if mode == "yield" else "returned"
+            checks.append(lambda got=got, ps=ps, verb=verb: R.check(got <= {1} and bool(got), r_once, F, qn, norm(ps) + (" -> yield" if verb == "yielded" else " -> return"),
+                          f"between popping a message and the next pop / end of iteration the message is {verb} {sorted(got)} time(s) (0 = lost, 2 = duplicated)", ps.lineno))
+
+        # routing: per queue local this function pops from
+        qparams: Set[str] = set()
+        for qv, lv, kv in binds:
+            mine = [(s, m) for s, m, q, _c in pop_stmts if q == qv]
+            if not mine:
+                continue
+            if qv in params:
+                qparams.add(qv)  # the caller knows the channel: its call is a pop statement there
+                continue
+            my_msgs = {m for _s, m in mine}
+            targets = [s for s, _m in mine] + [s for s, m in hands if m is None or m in my_msgs]
+            if kv is not None:
+                ids = [i for i in (fl.node_of(s) for s in targets) if i is not None]
+                holds, path, guards = fl.only_through(self.make_atom(kv), ids)
+                checks.append(lambda holds=holds, path=path, guards=guards, kv=kv: R.check(
+                    holds and guards > 0, r_route, F, qn, f"fnmatch({kv}, self.{self.sub_pattern}) dominates pop and {'yield' if mode == 'yield' else 'return'}",
+                    "a message can be taken from / yielded for a channel that does not match the subscription pattern", fn.lineno, path))
+                continue
+            # the consumer iterates over entries selected elsewhere (helper, generator, cached list):
+            # the routing obligation sits where an entry is selected
+            src = self.binding_src.get((id(fn), qv))
+            sites = sp.origins(src, fn) if src is not None else []
+            if not sites:
+                checks.append(lambda src=src: R.violation(r_route, F, qn, norm(src) if src is not None else "queue source",
+                              "the consumer's queues are not selected by fnmatch(<channel>, self.<pattern>) anywhere", fn.lineno))
+            for sfn, node, key, how in sites:
+                sqn = f"{SUBSCRIPTION}.{getattr(sfn, 'name', '?')}"
+                if how == "comp":
+                    ok_r = key is not None and any(
+                        "T" in edges_guaranteeing(cond, self.make_atom(key)) for gen in node.generators for cond in gen.ifs)
+                    path_r: List[str] = []
+                elif how == "site":
+                    ok_r, path_r = self.routed_at(sfn, node, key)
+                else:
+                    ok_r, path_r = False, []
+                checks.append(lambda ok_r=ok_r, sqn=sqn, node=node, path_r=path_r: R.check(
+                    ok_r, r_route, F, sqn, norm(stmt(node)) + " [selects a queue for the consumer]",
+                    "a channel's queue is handed to the consumer without fnmatch(<its channel>, self.<pattern>) holding: messages of channels that do not match the subscription pattern are yielded", getattr(node, "lineno", 0), path_r))
+        return {"pops": pop_stmts, "checks": checks, "qparams": qparams}
+
+
+def _nonempty_atom(qv: str):
+    """Polarity of a test as a statement about ``<qv> is non-empty``."""
+    def is_len(e: ast.AST) -> bool:
+        return (isinstance(e, ast.Call) and not e.keywords and len(e.args) == 1 and isinstance(e.args[0], ast.Name) and e.args[0].id == qv
+                and ((isinstance(e.func, ast.Name) and e.func.id in ("len", "bool")) or False)) or (
+            isinstance(e, ast.Call) and isinstance(e.func, ast.Attribute) and e.func.attr in ("__len__", "__bool__")
+            and isinstance(e.func.value, ast.Name) and e.func.value.id == qv and not e.args)
+
+    def atom(e: ast.AST) -> Optional[bool]:
+        if isinstance(e, ast.Name) and e.id == qv:
+            return True
+        if is_len(e):
+            return True
+        if isinstance(e, ast.Compare) and len(e.ops) == 1 and isinstance(e.comparators[0], ast.Constant) and is_len(e.left):
+            op, k = e.ops[0], e.comparators[0].value
+            if (isinstance(op, (ast.Gt, ast.NotEq)) and k == 0) or (isinstance(op, ast.GtE) and k == 1):
+                return True
+            if (isinstance(op, (ast.Eq, ast.LtE)) and k == 0) or (isinstance(op, ast.Lt) and k == 1):
+                return False
+        if isinstance(e, ast.Compare) and len(e.ops) == 1 and isinstance(e.left, ast.Constant) and is_len(e.comparators[0]):
+            op, k = e.ops[0], e.left.value
+            if (isinstance(op, (ast.Lt, ast.NotEq)) and k == 0) or (isinstance(op, ast.LtE) and k == 1):
+                return True
+            if (isinstance(op, (ast.Eq, ast.GtE)) and k == 0) or (isinstance(op, ast.Gt) and k == 1):
+                return False
+        return None
+    return atom
+
+
+def _pop_guarded(fn: ast.AST, w: ast.AST, pop: ast.Call, qv: str) -> bool:
+    """Inside the critical section *w* the pop only runs when a test made inside *w* found the deque non-empty
+    (whatever way round the test is written), or an IndexError of the pop is caught."""
+    atom = _nonempty_atom(qv)
+    prev: ast.AST = pop
+    for a in ancestors(pop):
+        if a is w:
+            break
+        if isinstance(a, ast.IfExp):
+            g_ = edges_guaranteeing(a.test, atom)
+            if ("T" in g_ and _within(pop, a.body)) or ("F" in g_ and _within(pop, a.orelse)):
+                return True
+        if isinstance(a, ast.BoolOp) and isinstance(a.op, ast.And):
+            idx = next((i for i, v in enumerate(a.values) if _within(pop, v)), 0)
+            if any("T" in edges_guaranteeing(v, atom) for v in a.values[:idx]):
+                return True
+        if isinstance(a, ast.Try) and any(_within(pop, s) for s in a.body) and any(h.type is None or "IndexError" in ast.unparse(h.type) for h in a.handlers):
+            return True
+        prev = a
+    g = CFG(fn, may_raise=lambda part: set())
+    wn = g.nodes_for(w)
+    st_ = stmt(pop)
+    pn = g.nodes_for(st_)
+    if not wn or not pn:
+        return False
+    blocked: Set[Tuple[int, str]] = set()
+    for n in g.nodes:
+        if n.kind in ("if", "while") and n.part is not None and n.ast is not None and _within(n.ast, w):
+            for lab in edges_guaranteeing(n.part, atom):
+                blocked.add((n.id, lab))
+    if not blocked:
+        return False
+    seen = g.reach(wn, blocked_edges=blocked)
+    return not any(p_ in seen for p_ in pn)
 
 
 def _guarded_creation(sub: ast.Subscript, lock: str, is_map) -> bool:
